@@ -21,6 +21,7 @@ EXPLANATION = (
     " Added after seed round 6: R6 findall/3 proves its goal in a formula constructed in the same call with keep_order, keep_all and keep_duplicates."
     " Added after seed round 7: R7 registering a `_` of a local scope advances the counter its key is derived from, so every such `_` is a variable of its own."
     " Added after seed round 8: R8 a returned message list is only extended inside loops (engine modules)."
+    " Added after seed round 11: R9 _add_compound applies OrderedSet only on paths that established keep_duplicates off."
 )
 TECHNIQUE = "static analysis: abstract interpretation (clause-order domain) over the CFG, purity and who-may-write rules"
 LEVEL_TEXT = EXPLANATION
@@ -443,6 +444,32 @@ def rule_r8(repo, col):
     col.floor("R8.loop_extensions", n_aug, 8)
 
 
+def rule_r9(repo, col):
+    """LogicFormula._add_compound removes repeated children (OrderedSet) only on paths that have established that keep_duplicates is off: findall/3 builds its scratch formula with
+    keep_duplicates AND keep_order, and a solution proven twice through one node must stay two children"""
+    from .. import dtable
+
+    f = repo.func("problog.formula", "LogicFormula._add_compound")
+    m = f.module
+    bad = []
+    n = 0
+    for p_ in dtable.extract(f.node):
+        dd = [a for fn, a, _ in p_.calls if fn in ("OrderedSet", "unique")]
+        if not dd:
+            continue
+        n += 1
+        cd = [(s_, t_) for s_, t_, _ in p_.conds]
+        off = ("self._keep_duplicates", False) in cd or ("not self._keep_duplicates", True) in cd
+        if not off:
+            bad.append(", ".join("%s is %s" % (s_, t_) for s_, t_ in cd if "_keep_" in s_) or "unconditionally")
+    if n == 0:
+        raise AnalysisError("_add_compound: no path removes duplicates at all")
+    col.decide("R9", m, f.node, not bad, "_add_compound removes repeated children only when keep_duplicates is off",
+               "_add_compound applies OrderedSet to the children on a path that has not established keep_duplicates off (%s): findall/3 grounds into a formula with keep_duplicates and "
+               "keep_order, so a solution derived twice through the same node is listed once - s(X) :- q(X). s(X) :- q(X). q(k). gives [k] instead of [k, k]" % "; ".join(sorted(set(bad))[:2]),
+               construct="_add_compound: duplicates removed although keep_duplicates may be set", function="LogicFormula._add_compound")
+
+
 def run(repo, col):
     col.rule("R5", "the answer buffer records every proof node (duplicates included)")
     col.rule("R1", "ClauseIndex.find returns clause ids in program order (abstract interpretation)")
@@ -459,3 +486,5 @@ def run(repo, col):
     rule_r7(repo, col)
     col.rule("R8", "message lists are only extended inside loops")
     rule_r8(repo, col)
+    col.rule("R9", "findall's scratch formula: repeated children survive _add_compound")
+    rule_r9(repo, col)
